@@ -1235,7 +1235,7 @@ func newNexusDrv(c *sim.Ctx, g pdGeo, kv *memKV, nsub int, salt uint64) (*nexusD
 	d := &nexusDrv{c: c, kv: kv, ctx: context.Background(), nsub: nsub}
 	d.salt = salt
 	d.name = "nexus-hash"
-	d.caps = pdCaps{Lookup: true, List: true, RelBySub: true, Reload: true}
+	d.caps = pdCaps{Lookup: true, List: true, RelBySub: true, Reload: true, Faults: true}
 	// documented: "Exclude network and broadcast"
 	d.units = g.hostUnits(1, 1, false)
 	d.outside = append(g.outsideOf(false), g.hostAddr(0), g.hostAddr(g.hosts()-1))
@@ -1305,6 +1305,9 @@ func (d *nexusDrv) Reload() error {
 }
 func (d *nexusDrv) Close() { d.cl.Stop(); d.kv.dropWatchers() }
 
+// ArmFault: the k-th next store call of that kind fails (clean failure).
+func (d *nexusDrv) ArmFault(kind, k int) bool { d.kv.arm(kind, k); return true }
+
 // ---------------------------------------------------------------------------
 // variant table
 
@@ -1333,7 +1336,7 @@ func pdStaticCaps(variant string) pdCaps {
 	case "peer":
 		return pdCaps{Lookup: true, RelBySub: true, Stats: true}
 	case "nexus-hash":
-		return pdCaps{Lookup: true, List: true, RelBySub: true, Reload: true}
+		return pdCaps{Lookup: true, List: true, RelBySub: true, Reload: true, Faults: true}
 	}
 	return pdCaps{}
 }
@@ -1406,7 +1409,10 @@ func buildPoolDriver(c *sim.Ctx) (poolDriver, error) {
 		g := pickGeo(pdGeoV4Host, geo)
 		return newPeerDrv(g, gatewayFor(g, gwk))
 	case "nexus-hash":
-		return newNexusDrv(c, pickGeo(pdGeoV4Host[1:], geo), newKV(), int(cs.Knob("nsub", 3)), uint64(cs.Knob("idsalt", 0)))
+		kv := newKV()
+		// (store failures are clean: a failed call has no effect. Ambiguous outcomes - write applied,
+		// error returned - are outside the fault model: no pool implementation here reads back)
+		return newNexusDrv(c, pickGeo(pdGeoV4Host[1:], geo), kv, int(cs.Knob("nsub", 3)), uint64(cs.Knob("idsalt", 0)))
 	}
 	return nil, fmt.Errorf("unknown pool variant %q", cs.Variant)
 }
